@@ -1,6 +1,7 @@
 package main
 
 import (
+	"go/types"
 	"fmt"
 	"go/constant"
 	"strings"
@@ -561,7 +562,32 @@ func runC12(p *Program, r *Report) {
 			}
 			got := expandCalls(pa, fm[0].Callee+"("+argKey(fm[0], 0)+","+argKey(fm[0], 1)+")")
 			if got != "filepath.Match(strings.ToLower(param:pattern),strings.ToLower(param:s))" {
-				return false, got
+				// the host lower-cased once by the caller(s) instead of per pattern
+				hoisted := got == "filepath.Match(strings.ToLower(param:pattern),param:s)"
+				if hoisted {
+					idx := -1
+					for k, prm := range fn.Params {
+						if paramName(prm) == "s" {
+							idx = k
+						}
+					}
+					sites := p.CallersOf(fn)
+					hoisted = idx >= 0 && len(sites) > 0
+					for _, cs := range sites {
+						args := cs.Instr.Common().Args
+						c, isCall := args[idx].(*ssa.Call)
+						if !isCall {
+							hoisted = false
+							continue
+						}
+						if _, nm := p.calleeOf(&c.Call); nm != "strings.ToLower" {
+							hoisted = false
+						}
+					}
+				}
+				if !hoisted {
+					return false, got
+				}
 			}
 			if !keyIs(pa.Ret[0], "call:filepath.Match@@#0") || !keyIs(pa.Ret[1], "call:filepath.Match@@#1") {
 				return false, "result not returned unchanged"
@@ -911,13 +937,23 @@ func c14server(p *Program, r *Report, rule string) {
 	if fn == nil {
 		return
 	}
+	// the offered parameters: the params field of the extension, or the list itself handed over by the caller
+	subj := "param:ext.params"
+	for _, prm := range fn.Params {
+		if sl, ok := prm.Type().Underlying().(*types.Slice); ok {
+			if b, ok := sl.Elem().Underlying().(*types.Basic); ok && b.Kind() == types.String {
+				subj = "param:" + paramName(prm)
+			}
+		}
+	}
+	elem0 := "elem(" + subj + ")[0]"
 	var atoms []Atom
-	atoms = append(atoms, strAtom("elem(param:ext.params)[0]", paramStrings(fn)...))
+	atoms = append(atoms, strAtom(elem0, paramStrings(fn)...))
 	p.runTable(r, tableSpec{
 		Rule: rule, Fn: fn, Atoms: atoms, Unroll: 1,
 		Decide: func(v Valuation) func(string, AV) (bool, bool) {
 			return func(key string, cond AV) (bool, bool) {
-				if key == "(len(param:ext.params) > 0)" {
+				if key == "(len("+subj+") > 0)" {
 					return true, true
 				}
 				return false, false
@@ -947,7 +983,7 @@ func c14server(p *Program, r *Report, rule string) {
 			return pa.End
 		},
 		Oracle: func(v Valuation) []string {
-			s := v.Str("elem(param:ext.params)[0]")
+			s := v.Str(elem0)
 			switch {
 			case s == "client_no_context_takeover":
 				return []string{"ACCEPT clientNoContextTakeover=true"}
@@ -1021,6 +1057,7 @@ func c14fallback(p *Program, r *Report, rule string) {
 			}
 			for _, e := range ad {
 				ext := argKey(e, 0)
+				ext = strings.TrimSuffix(ext, ".params") // the extension itself, or its parameter list
 				if v, k := decidedLike(pa, ext+".name == \"permessage-deflate\""); !k || !v {
 					return false, "acceptDeflate called for an extension not named permessage-deflate"
 				}
